@@ -925,7 +925,7 @@ package apd
 //@   ensures ret == d
 //@ func (*ErrDecimal).Exp
 //@   props C03
-//@   requires writable(e) && writable(d) && e.Ctx != nil && closed(e.Flags) && inv(x)
+//@   requires writable(e) && writable(d) && e.Ctx != nil && closed(e.Flags) && inv(x) && e.Ctx.Precision <= 2000000000
 //@   assigns e.Flags, e.err, d
 //@   ensures [invkeep] (old(inv(d)) ==> inv(d)) && closed(e.Flags) && e.Ctx == old(e.Ctx)
 //@   delegates (*Context).Exp(e.Ctx, d, x)
@@ -967,7 +967,7 @@ package apd
 //@   ensures ret == d
 //@ func (*ErrDecimal).Sqrt
 //@   props C03
-//@   requires writable(e) && writable(d) && e.Ctx != nil && closed(e.Flags) && inv(x)
+//@   requires writable(e) && writable(d) && e.Ctx != nil && closed(e.Flags) && inv(x) && e.Ctx.Precision <= 2000000000
 //@   assigns e.Flags, e.err, d
 //@   ensures [invkeep] (old(inv(d)) ==> inv(d)) && closed(e.Flags) && e.Ctx == old(e.Ctx)
 //@   delegates (*Context).Sqrt(e.Ctx, d, x)
